@@ -64,6 +64,7 @@ type c16In struct {
 	Orders     []c16Order `json:"orders"`
 	Steps      []c16Step  `json:"steps"`
 	Concurrent bool       `json:"concurrent,omitempty"` // orders run as free goroutines; Steps is one serialization
+	DNSTTL     int        `json:"dns_ttl,omitempty"`    // DNSManager.TTL in seconds: 0 (none), 10 (below the provider's minimum of 60 s: stored as 60 s), 120
 	Override   bool       `json:"override,omitempty"`   // DNS01Solver.OverrideDomain is set: every DNS challenge uses that one record name
 	Cfg        *c16Cfg    `json:"cfg,omitempty"`        // an issuer configuration whose solver set is looked at (c16_cfg.go)
 	E2E        *c16E2E    `json:"e2e,omitempty"`        // whole orders through the real ACMEIssuer and the mock CA (c16_e2e.go)
@@ -109,6 +110,12 @@ func c16NewEnv() *c16Env {
 
 const c16CA = "https://ca-one.test/dir"
 
+// c16MinTTL: the provider double normalises: records are stored with at least this TTL, and
+// DeleteRecords matches exactly (libdns contract). DNSManager.TTL varies over 0 / below / above it.
+const c16MinTTL = 60 * time.Second
+
+var c16TTLs = []int{10, 120, 0}
+
 type c16Hist struct {
 	in       c16In
 	addrs    []string // actual addresses
@@ -125,7 +132,7 @@ type c16Hist struct {
 // setup instantiates the symbolic history: fresh ports, unique identifiers, real solver stacks.
 func (e *c16Env) setup(in c16In, r *rand.Rand) (*c16Hist, error) {
 	e.seq++
-	h := &c16Hist{in: in, provider: &doubles.DNSProviderDouble{}, preMem: map[string]bool{}}
+	h := &c16Hist{in: in, provider: &doubles.DNSProviderDouble{MinTTL: c16MinTTL}, preMem: map[string]bool{}}
 	// every activeChallenges entry that appears during the history is reported, under whatever key
 	for _, m := range certmagic.VerifActiveChallenges() {
 		h.preMem[m.Key] = true
@@ -162,7 +169,7 @@ func (e *c16Env) setup(in c16In, r *rand.Rand) (*c16Hist, error) {
 			return nil, fmt.Errorf("bad address kind %q", kind)
 		}
 	}
-	h.dnsSolv = &certmagic.DNS01Solver{DNSManager: certmagic.DNSManager{DNSProvider: h.provider, PropagationTimeout: -1, Resolvers: []string{"127.0.0.1:1"}}}
+	h.dnsSolv = &certmagic.DNS01Solver{DNSManager: certmagic.DNSManager{DNSProvider: h.provider, TTL: time.Duration(in.DNSTTL) * time.Second, PropagationTimeout: -1, Resolvers: []string{"127.0.0.1:1"}}}
 	if in.Override {
 		h.override = fmt.Sprintf("_acme-challenge.delegated-%d.example", e.seq)
 		h.dnsSolv.OverrideDomain = h.override
@@ -706,9 +713,18 @@ func runC16(tier string, seed int64, outdir string, replay string) (retErr error
 		return env.runHistory(w, in, d, r, 0)
 	}
 	errHung := errors.New("hung")
+	nDNS := 0
 	run := func(in c16In, desc map[string]any) error {
 		if env.hung {
 			return errHung
+		}
+		for _, o := range in.Orders {
+			if o.Kind == "dns" { // DNSManager.TTL cycles through below the provider's minimum / above it / none
+				in.DNSTTL = c16TTLs[nDNS%len(c16TTLs)]
+				nDNS++
+				desc["dns_ttl"] = fmt.Sprint(in.DNSTTL)
+				break
+			}
 		}
 		if err := env.runHistory(w, in, desc, r, 5); err != nil {
 			return err
@@ -998,6 +1014,7 @@ func runC16(tier string, seed int64, outdir string, replay string) (retErr error
 		if env.hung {
 			return errHung
 		}
+		in.DNSTTL = c16TTLs[k%len(c16TTLs)]
 		if err := env.runHistory(w, in, map[string]any{"shape": "concurrent"}, r, 0); err != nil {
 			return err
 		}
